@@ -260,6 +260,7 @@ static void on_signal(int sig) {
     vh::Trace::current()->flush();
     _exit(0);
   }
+  if (vh::Trace::current()) vh::Trace::current()->flush();   // keep what was recorded so far
   _exit(3);
 }
 static bool no_oor_seg = false;   // C02_NO_OORSEG: sanitizer pass leaves out get_* calls with an out-of-range segment (known finding)
